@@ -35,6 +35,11 @@ CHECK = {
          "cases": {"quick": 96, "thorough": 640},
          "params": {"mode": "mink"},
          "case_timeout": 600},
+        # a non-convex A with more than 1000 triangles (internal batch size) swept by a small convex B
+        {"name": "minkbig", "variant": "asan", "harness": "c16_hull_minkowski.cpp",
+         "cases": {"quick": 4, "thorough": 32},
+         "params": {"mode": "mink", "bigA": 1},
+         "case_timeout": 1800},
     ],
     "assumptions": [
         "epsilon of the Hull clauses is QuickHull's own working epsilon, eps_hull = 1e-7 * max|input coordinate| "
